@@ -29,6 +29,7 @@ func TestMain(m *testing.M) {
 	vh.Assume("one sender/consumer goroutine per channel (concurrent use of one channel is outside what the API supports); schedules are sampled, not enumerated; junk packets are injected while no consumer waits, so the connection error cannot be picked up by a consumer's select; no PACKSIZE change while several channels are active")
 	vh.Rule("also: the server acknowledges a teardown (header-only CLOSE) while the channel is still registered - channels created afterwards still work; 40..520 logical channels (33000 in the thorough tier) created and closed over the life of one connection with 1..16 open at once: every NewChannel succeeds, every id is new, every response is routed to its channel")
 	vh.Rule("also: a channel that received more unparsable responses than its error queue holds, errors never fetched: Close of it returns and the other channels receive their packages")
+	vh.Rule("also: stray packets (for channels nobody has) with and without EOM and with other status bits, followed by the response of an existing channel: the response is delivered, every stray packet is reported")
 	vh.Main(m, "C12")
 }
 
